@@ -362,7 +362,7 @@ theorem C09_fsk_set_data_shaping (sh ramp : Nat) (h : Handle) (c : Chip)
   refine ⟨rfl, rfl, ?_⟩
   c09_fields
 
-theorem C09_fsk_set_fdev (fdev : F) (hv : ¬(F.lt fdev (F.fin 600) ∨ F.gt fdev (F.fin 200000))) (v : Nat)
+theorem C09_fsk_set_fdev (fdev : F) (hv : ¬¬(F.le (F.fin 600) fdev ∧ F.le fdev (F.fin 200000))) (v : Nat)
     (hval : fdevValue fdev = some v) (h : Handle) (c : Chip)
     (hm : h.activeModem = Gen.SX127x_MODULATION_FSK) (hl : c.isLora = false) :
     Configures (fskSetFdev fdev) h c h [⟨0x04, 0xff, u8 (v / 256)⟩, ⟨0x05, 0xff, u8 v⟩] := by
@@ -382,7 +382,7 @@ theorem C09_set_frequency (f : UInt64) (d0 d1 d2 : UInt8) (hval : frfOf f = some
   refine ⟨rfl, rfl, ?_⟩
   c09_fields
 
-theorem C09_fsk_ook_set_bitrate_fsk (b : F) (hv : ¬(F.lt b (F.fin 1200) ∨ F.gt b (F.fin 300000))) (v : Nat)
+theorem C09_fsk_ook_set_bitrate_fsk (b : F) (hv : ¬¬(F.le (F.fin 1200) b ∧ F.le b (F.fin 300000))) (v : Nat)
     (hval : fskBitrateValue b = some v) (h : Handle) (c : Chip)
     (hm : h.activeModem = Gen.SX127x_MODULATION_FSK) (hl : c.isLora = false) :
     Configures (fskOokSetBitrate b) h c h
@@ -396,7 +396,7 @@ theorem C09_fsk_ook_set_bitrate_fsk (b : F) (hv : ¬(F.lt b (F.fin 1200) ∨ F.g
   refine ⟨rfl, rfl, ?_⟩
   c09_fields
 
-theorem C09_fsk_ook_set_bitrate_ook (b : F) (hv : ¬(F.lt b (F.fin 1200) ∨ F.gt b (F.fin 25000))) (v : Nat)
+theorem C09_fsk_ook_set_bitrate_ook (b : F) (hv : ¬¬(F.le (F.fin 1200) b ∧ F.le b (F.fin 25000))) (v : Nat)
     (hval : ookBitrateValue b = some v) (h : Handle) (c : Chip)
     (hm : h.activeModem = Gen.SX127x_MODULATION_OOK) (hl : c.isLora = false) :
     Configures (fskOokSetBitrate b) h c h
